@@ -295,10 +295,8 @@ Lemma request_parsers_tcp_safe : forall fc,
   safe parse_wcoils_req_tcp /\ safe parse_wregs_req_tcp /\ safe parse_srvid_req_tcp /\
   safe parse_rw_req_tcp.
 Proof.
-  intros fc. repeat split;
-  first [ apply read_req_tcp_safe | apply wcoil_req_tcp_safe | apply wreg_req_tcp_safe
-        | apply wcoils_req_tcp_safe | apply wregs_req_tcp_safe | apply srvid_req_tcp_safe
-        | apply rw_req_tcp_safe ].
+  intros fc.
+  exact (conj (read_req_tcp_safe fc) (conj wcoil_req_tcp_safe (conj wreg_req_tcp_safe (conj wcoils_req_tcp_safe (conj wregs_req_tcp_safe (conj srvid_req_tcp_safe rw_req_tcp_safe)))))).
 Qed.
 
 Lemma request_parsers_rtu_safe : forall fc,
@@ -306,45 +304,41 @@ Lemma request_parsers_rtu_safe : forall fc,
   safe parse_wcoils_req_rtu /\ safe parse_wregs_req_rtu /\ safe parse_srvid_req_rtu /\
   safe parse_rw_req_rtu.
 Proof.
-  intros fc. repeat split;
-  first [ apply read_req_rtu_safe | apply wcoil_req_rtu_safe | apply wreg_req_rtu_safe
-        | apply wcoils_req_rtu_safe | apply wregs_req_rtu_safe | apply srvid_req_rtu_safe
-        | apply rw_req_rtu_safe ].
+  intros fc.
+  exact (conj (read_req_rtu_safe fc) (conj wcoil_req_rtu_safe (conj wreg_req_rtu_safe (conj wcoils_req_rtu_safe (conj wregs_req_rtu_safe (conj srvid_req_rtu_safe rw_req_rtu_safe)))))).
 Qed.
 
 Lemma request_dispatchers_safe :
   safe parse_tcp_request /\ safe parse_rtu_request /\ safe parse_rtu_request_crc.
-Proof. repeat split; first [apply tcp_request_safe | apply rtu_request_safe | apply rtu_request_crc_safe]. Qed.
+Proof. exact (conj tcp_request_safe (conj rtu_request_safe rtu_request_crc_safe)). Qed.
 
 Lemma response_parsers_tcp_safe : forall fc,
   safe (parse_bytes_resp_tcp fc) /\ safe parse_wcoil_resp_tcp /\ safe parse_wreg_resp_tcp /\
   safe (parse_wmulti_resp_tcp fc) /\ safe parse_srvid_resp_tcp.
 Proof.
-  intros fc. repeat split;
-  first [ apply bytes_resp_tcp_safe | apply wcoil_resp_tcp_safe | apply wreg_resp_tcp_safe
-        | apply wmulti_resp_tcp_safe | apply srvid_resp_tcp_safe ].
+  intros fc.
+  exact (conj (bytes_resp_tcp_safe fc) (conj wcoil_resp_tcp_safe (conj wreg_resp_tcp_safe (conj (wmulti_resp_tcp_safe fc) srvid_resp_tcp_safe)))).
 Qed.
 
 Lemma response_parsers_rtu_safe : forall fc,
   safe (parse_bytes_resp_rtu fc) /\ safe parse_wcoil_resp_rtu /\ safe parse_wreg_resp_rtu /\
   safe (parse_wmulti_resp_rtu fc) /\ safe parse_srvid_resp_rtu.
 Proof.
-  intros fc. repeat split;
-  first [ apply bytes_resp_rtu_safe | apply wcoil_resp_rtu_safe | apply wreg_resp_rtu_safe
-        | apply wmulti_resp_rtu_safe | apply srvid_resp_rtu_safe ].
+  intros fc.
+  exact (conj (bytes_resp_rtu_safe fc) (conj wcoil_resp_rtu_safe (conj wreg_resp_rtu_safe (conj (wmulti_resp_rtu_safe fc) srvid_resp_rtu_safe)))).
 Qed.
 
 Lemma response_dispatchers_safe :
   safe parse_tcp_response /\ safe parse_rtu_response /\ safe parse_rtu_response_crc.
-Proof. repeat split; first [apply tcp_response_safe | apply rtu_response_safe | apply rtu_response_crc_safe]. Qed.
+Proof. exact (conj tcp_response_safe (conj rtu_response_safe rtu_response_crc_safe)). Qed.
 
 Lemma header_and_classifier_safe :
   safe parse_mbap /\ (forall allow, safe (fun d => looks_like d allow)).
-Proof. split; [apply mbap_safe | apply looks_like_safe]. Qed.
+Proof. exact (conj mbap_safe looks_like_safe). Qed.
 
 Lemma exception_recognisers_safe :
   safe as_tcp_error /\ safe as_rtu_error /\ safe as_rtu_error_crc.
-Proof. repeat split; first [apply as_tcp_error_safe | apply as_rtu_error_safe | apply as_rtu_error_crc_safe]. Qed.
+Proof. exact (conj as_tcp_error_safe (conj as_rtu_error_safe as_rtu_error_crc_safe)). Qed.
 
 (* ---------- the exported Go functions and the model entry point each one is an instance of ---------- *)
 From Coq Require Import String.
